@@ -2,7 +2,7 @@
    byte and spec_float stay extracted inductives. *)
 From Coq Require Import ExtrOcamlBasic.
 From Coq Require Import List ZArith Strings.Byte Floats.SpecFloat.
-From Ugo Require Import Base.Res Base.GoInt Base.GoFloat Value.PValue Value.Ops Conv.GoValue Skel.Skel Byte.Instr Byte.V1Conv Codec.Varint Codec.Obj Comp.SymTab Comp.Fold Byte.Wf VM.CallBinding.
+From Ugo Require Import Base.Res Base.GoInt Base.GoFloat Value.PValue Value.Ops Conv.GoValue Skel.Skel Byte.Instr Byte.V1Conv Codec.Varint Codec.Obj Comp.SymTab Comp.Fold Byte.Wf VM.CallBinding Comp.ModStore.
 Definition byte_to_N := Byte.to_N.
 Definition byte_of_N := Byte.of_N.
 Extraction "ugomodel.ml"
@@ -16,4 +16,5 @@ Extraction "ugomodel.ml"
   run_ops new_symbol_table
   fold_binop fold_unop is_literal_falsy
   wf_function
-  call_compiled init_locals.
+  call_compiled init_locals
+  loads_ok.
